@@ -17,7 +17,7 @@ import (
 
 func c15Plan(tier string) histPlan {
 	if tier == "thorough" {
-		return histPlan{Enum: gen.EnumParams{MaxAdds: []int{5, 4, 3}}, Rand: 200000, Tall: 40}
+		return histPlan{Enum: gen.EnumParams{MaxAdds: []int{5, 4, 3}}, Rand: 800000, Tall: 120}
 	}
 	return histPlan{Enum: gen.EnumParams{MaxAdds: []int{4, 3, 2}}, Rand: 15000, Tall: 6}
 }
